@@ -205,6 +205,15 @@ fn run_container(bytes: &[u8]) -> J {
                 break;
             }
         }
+        // the same file through the schema-aware deserializing iterator
+        if let Ok(rd2) = Reader::new(bytes) {
+            let mut n = 0usize;
+            for item in rd2.into_deser_iter::<Dyn>() {
+                if item.is_err() { break; }
+                n += 1;
+                if n >= 100_000 { break; }
+            }
+        }
         Ok::<(usize, usize), String>((n_ok, n_err))
     }));
     m_end();
